@@ -345,6 +345,15 @@ func TestCheck(t *testing.T) {
 									caller := db.Caller{Permissions: wh.rules}
 									want, werr := direct(rd, caller, bd.decoded)
 									wc := hx.Classify(werr)
+									// the permission decision is also taken independently of the database code
+									if act, nm, ok := actionOf(bd.decoded); ok && !model.Allow(toRef(wh.rules), act, nm) {
+										if code != 403 {
+											fail("denied-status-independent", fmt.Sprintf("status %d; no rule of the caller grants %s on %q, want 403", code, act, nm))
+										}
+										if hx.DumpKey(d) != before {
+											fail("denied-but-changed", "a request without a matching grant changed the database")
+										}
+									}
 									switch wc {
 									case model.OK:
 										wb, _ := json.Marshal(want)
@@ -420,4 +429,38 @@ func TestCheck(t *testing.T) {
 	if err := rep.Write(env); err != nil {
 		t.Fatal(err)
 	}
+}
+
+// actionOf returns the action and name a well-formed request needs a grant for.
+func actionOf(req any) (string, string, bool) {
+	switch r := req.(type) {
+	case api.GetRequest:
+		return "get", r.Name, true
+	case api.InfoRequest:
+		return "info", r.Name, true
+	case api.PutRequest:
+		return "put", r.Name, r.Name != ""
+	case api.ActivateRequest:
+		return "activate", r.Name, r.Name != ""
+	case api.DeleteRequest:
+		return "delete", r.Name, true
+	case api.DeleteVersionRequest:
+		return "delete", r.Name, true
+	}
+	return "", "", false
+}
+
+func toRef(rs acl.Rules) []model.Rule {
+	var out []model.Rule
+	for _, r := range rs {
+		var m model.Rule
+		for _, a := range r.Action {
+			m.Actions = append(m.Actions, string(a))
+		}
+		for _, s := range r.Secret {
+			m.Patterns = append(m.Patterns, string(s))
+		}
+		out = append(out, m)
+	}
+	return out
 }
